@@ -144,19 +144,48 @@ fn describe_pkey_public<T: openssl::pkey::HasPublic>(pk: &PKey<T>) -> Result<Pub
 	}
 }
 
+/// Load a private key (PKCS#8 v1, SEC1, PKCS#1 through OpenSSL; PKCS#8 v2 Ed25519 - which OpenSSL
+/// does not read - by extracting the seed with our own DER reader).
+pub fn load_private(der: &[u8]) -> Result<PKey<Private>, String> {
+	match PKey::private_key_from_der(der) {
+		Ok(k) => Ok(k),
+		Err(e) => {
+			let seed = ed25519_seed_from_pkcs8(der).map_err(|m| format!("d2i_AutoPrivateKey: {} / own reader: {}", e, m))?;
+			PKey::private_key_from_raw_bytes(&seed, Id::ED25519).map_err(|e| e.to_string())
+		},
+	}
+}
+
+fn ed25519_seed_from_pkcs8(der: &[u8]) -> Result<Vec<u8>, String> {
+	let top = derx::parse_exact(der, false)?;
+	let k = top.children(false)?;
+	if k.len() < 3 {
+		return Err("not a PKCS#8 structure".into());
+	}
+	let alg = k[1].children(false)?;
+	if alg.is_empty() || derx::decode_oid(alg[0].content)? != [1, 3, 101, 112] {
+		return Err("not an Ed25519 PKCS#8".into());
+	}
+	let inner = derx::parse_exact(k[2].content, false)?;
+	if !inner.is_univ(derx::OCTET_STRING) || inner.content.len() != 32 {
+		return Err("CurvePrivateKey is not a 32-byte OCTET STRING".into());
+	}
+	Ok(inner.content.to_vec())
+}
+
 pub fn describe_private(pkcs8_or_trad_der: &[u8]) -> Result<PubDesc, String> {
-	let pk: PKey<Private> = PKey::private_key_from_der(pkcs8_or_trad_der).map_err(|e| format!("d2i_AutoPrivateKey: {}", e))?;
+	let pk = load_private(pkcs8_or_trad_der)?;
 	describe_pkey_public(&pk)
 }
 
 pub fn spki_of_private(der: &[u8]) -> Result<Vec<u8>, String> {
-	let pk: PKey<Private> = PKey::private_key_from_der(der).map_err(|e| format!("d2i_AutoPrivateKey: {}", e))?;
+	let pk = load_private(der)?;
 	pk.public_key_to_der().map_err(|e| e.to_string())
 }
 
 /// Private components of a key (for the C19 leak scanner): each is a big-endian byte string.
 pub fn private_components(der: &[u8]) -> Result<Vec<(String, Vec<u8>)>, String> {
-	let pk: PKey<Private> = PKey::private_key_from_der(der).map_err(|e| format!("d2i_AutoPrivateKey: {}", e))?;
+	let pk = load_private(der)?;
 	let mut out = Vec::new();
 	match pk.id() {
 		Id::RSA => {
